@@ -21,6 +21,11 @@ def cases(rng, tier):
         kind = rng.choice(["qft", "qft_swapped"])
         cs.append({"kind": "applyraw", "n": n, "raw": gen.random_state(rng, n), "e": (kind, m)})
         cs.append({"kind": "applyraw", "n": n, "raw": gen.random_state(rng, n), "e": ("mul", (kind, m), ("dgr", (kind, m)))})
+    # registers too large for the model's buffers (17-18 qubits): basis states through the full-register transforms,
+    # judged by the DFT column formula when the search for a failing input is on
+    for n in (17, 18):
+        for kind, j in (("qft", 1 << (n - 1)), ("qft_swapped", 1), ("qft", 3), ("qft_swapped", (1 << n) - 2)):
+            cs.append({"kind": "applybasis", "n": n, "j": j, "e": (kind, (1 << n) - 1), "no_model": True})
     # structure on wide masks
     for _ in range(20):
         m = rng.getrandbits(rng.choice([8, 20, 40, 62]))
@@ -31,5 +36,6 @@ def cases(rng, tier):
 if __name__ == "__main__":
     opsmain.main(PROP, cases, "C15 qft / qft_swapped matrices and action",
                  "C15_dft", "qft and qft_swapped for every mask of registers of 0..4 (5) qubits via matrix(n), daggers, random "
-                 "states on 5..6(7) qubits with scattered masks, qft*dgr(qft), structure on wide masks",
+                 "states on 5..6(7) qubits with scattered masks, qft*dgr(qft), structure on wide masks; basis states through the "
+                 "full-register transforms on 17-18 qubits (implementation only, DFT column formula)",
                  up_to_phase=True)
